@@ -9,6 +9,7 @@ httputil._parse_request_range directly with the same strings (this is the only
 way non-Latin-1 digits reach it) and checks its documented contract
 ("indexes suitable for slices" / None)."""
 import email.utils
+import os
 import itertools
 import re
 
@@ -368,9 +369,41 @@ class C27(Check):
                     if etags[case[0]] is None:
                         continue
                     self._one(cl, app, httputil, case, etags[case[0]], st)
+            if part == 0:
+                self._changed_on_disk(cl_factory=wf.Client, root=root, st=st)
         finally:
             wf.rmtree(T)
         st.setmax("max_file_size", max(sizes))
+
+    def _changed_on_disk(self, cl_factory, root, st):
+        """static_hash_cache=False: the entity tag follows the content on disk - after the file changed, a request
+        conditional on the old tag gets 200 with the whole new file, one conditional on the new tag gets 304."""
+        from tornado.web import Application, StaticFileHandler
+        import hashlib
+        app = Application([("/s/(.*)", StaticFileHandler, {"path": root})], static_hash_cache=False)
+        old, new = b"old content 0123456789", b"NEW content 9876543210"
+        path = root + "/changing.bin"
+        wf.mkfile(path, old)
+        with cl_factory() as cl:
+            r1, p1, _, _ = cl.request(app, [("GET", b"/s/changing.bin", [])])
+            st.ev()
+            if p1 or len(r1) != 1 or r1[0].code != 200 or not r1[0].get("Etag"):
+                st.violation("changed-file:first-get", "first GET: %r %r" % (p1, [(r.code, r.body[:20]) for r in r1]), {"changed": 1})
+                return
+            tag_old = r1[0].get("Etag")
+            wf.mkfile(path, new)           # same size, same mtime, other content
+            tag_new = ('"' + hashlib.sha512(new).hexdigest() + '"').encode()
+            for method in (b"GET", b"HEAD"):
+                ra, pa, _, _ = cl.request(app, [(method.decode(), b"/s/changing.bin", [("If-None-Match", tag_old)])])
+                st.ev()
+                if pa or len(ra) != 1 or ra[0].code != 200 or (method == b"GET" and ra[0].body != new):
+                    st.violation("changed-file:stale-validator-honoured", "static_hash_cache=False, file rewritten, %s with the OLD "
+                                 "entity tag: %r (expected 200 with the new content)" % (method.decode(), [(r.code, r.body[:24]) for r in ra]),
+                                 {"changed": 1})
+                rb, pb, _, _ = cl.request(app, [(method.decode(), b"/s/changing.bin", [])])
+                st.ev()
+                if not pb and len(rb) == 1 and rb[0].get("Etag") == tag_old:
+                    st.violation("changed-file:stale-etag-sent", "the Etag header after the change is still the old one", {"changed": 1})
 
     def _base(self, cl, app, size, st):
         """Unconditional GET: the client learns the entity tag here."""
@@ -567,6 +600,15 @@ class C27(Check):
         from tornado.web import Application, StaticFileHandler
         from tornado import httputil
         from mc.core import Stats
+        if case.get("changed"):
+            T = wf.mktree()
+            try:
+                st = Stats()
+                os.makedirs(T + "/root", exist_ok=True)
+                self._changed_on_disk(cl_factory=wf.Client, root=T + "/root", st=st)
+                return "changed-on-disk scenario: %r" % ({k: v[0] for k, v in st.violations.items()},)
+            finally:
+                wf.rmtree(T)
         T = wf.mktree()
         out = []
         try:
